@@ -370,6 +370,19 @@ def _entries(soup: Any, page: str, site: Dict[str, Any], indexpage: bool = False
                 a = _first_link(tds[1])
                 if a is not None:
                     add("table", a, _has_private(tr), under_private(tr))
+                else:
+                    # a row whose name is not a link (taglink() refuses hidden targets): the member <label> of the page's
+                    # object, or - in an "Inherited from X" table - of the class X named by the paragraph before the table
+                    owner = site["titles"].get(page, "")
+                    if any(c.startswith("base") for c in _classes(tr)):
+                        par = table.find_previous_sibling("p", class_="inheritedFrom")
+                        pa = _first_link(par) if par is not None else None
+                        sp = _split(pa.get("href")) if pa is not None else None
+                        owner = file_id(sp[0]) if sp and sp[0] else ""
+                    label = tds[1].get_text().strip()
+                    if owner and label:
+                        site["entries"].append({"page": page, "kind": "table", "file": "", "frag": "", "ref": owner + "." + label,
+                                                "private": _has_private(tr), "under_private": under_private(tr)})
     cl = soup.find(id="childList")
     if cl is not None:
         for div in cl.find_all("div", recursive=False):
